@@ -7,7 +7,7 @@ from .values import (INT, REAL, BOOL, STR, XR, Z, X, Opt, Arr, Frame, SDict, Obj
                      fresh_name)
 from . import lib
 from .lib import Marker, term_int, _norm_elem, _elem_type
-from .engine import (Unsupported, RaiseSig, BreakSig, ContinueSig, StopPath, Infeasible, lift, to_int,
+from .engine import (_chk, Unsupported, RaiseSig, BreakSig, ContinueSig, StopPath, Infeasible, lift, to_int,
                      zbool, is_sym)
 
 
@@ -207,7 +207,7 @@ def _keep_by_instances(E, goal, hyps, s, nm):
     sol.add(z3.Not(body))
     import time as _t
     t0 = _t.time()
-    r = sol.check()
+    r = _chk(sol)
     if r != z3.unsat:
         return False
     ob = Obligation(nm, 'inv-keep', qf + ground, body, getattr(s, 'lineno', None), 'by instances')
@@ -384,8 +384,18 @@ def exec_for(E, s):
         check_rebinding()
         for j, be in enumerate(spec.get('body_ensures') or []):
             # facts about the locals of an arbitrary iteration (per-iteration postcondition)
-            E.oblige('body-ensures', E.spec_bool(be, inv_env(Z(k, INT))), s,
-                     name='%s/loop%d/body-ensures#%d' % (E.fn_short, ordinal, j + 1))
+            goal_be = E.spec_bool(be, inv_env(Z(k, INT)))
+            nm_be = '%s/loop%d/body-ensures#%d' % (E.fn_short, ordinal, j + 1)
+            bu = spec.get('body_using')
+            facts_ = E.st.ghost.get('facts', {})
+            if bu is not None and all(u in facts_ for u in bu):
+                hyps_ = []
+                for u in bu:
+                    v_ = facts_[u]
+                    hyps_.extend(v_ if isinstance(v_, list) else [v_])
+                E.oblige_focused('body-ensures', hyps_, goal_be, s, name=nm_be)
+            else:
+                E.oblige('body-ensures', goal_be, s, name=nm_be)
         using = spec.get('using')
         for j, inv in enumerate(invs):
             goal = E.spec_bool(inv, inv_env(Z(k + 1, INT)))
